@@ -384,6 +384,15 @@ fn run_history<CS: BbsCiphersuite>(rep: &Report, ck: &str, c: &Case) -> CheckRes
     let mut gens: Vec<Gen> = Vec::with_capacity(n);
     let mut gen_err: Option<String> = None;
     if c.threads <= 1 {
+        // bring a per-thread counter of the scalar generator close to a power of two before the history starts
+        // (in scalars: 2^12 .. 2^16; a scalar is 12 32-bit words: 2^16 words = 5461 scalars)
+        let pre: usize = [0usize, 0, 5440, 65500, 32740, 16360, 4080, 10900][(c.seed_a % 8) as usize];
+        for _ in 0..pre {
+            let _ = BlindFactor::random();
+        }
+        if pre > 0 {
+            rep.class("generator-advanced-before-the-history");
+        }
         for &b in &c.schedule {
             between_calls::<CS>(if b { &ib } else { &ia }, c.between, gens.last().filter(|g| (g.input == 1) == b).map(|g| g.proof.as_str()));
             match if b { generate::<CS>(&ib, 1) } else { generate::<CS>(&ia, 0) } {
